@@ -30,16 +30,24 @@ type pathAbort struct {
 }
 
 type fnInfo struct {
-	idx map[ssa.Value]int
-	n   int
+	idx    map[ssa.Value]int
+	n      int
+	name   string // fn.String(), cached (types.TypeString is slow)
+	model  string // name used for model lookup
+	sparse bool   // huge functions (compiler.Expr, yyParse ...) get a map-backed register file
+	pool   sync.Pool
 }
 
 var (
 	fnInfoMu    sync.Mutex
 	fnInfoCache = map[*ssa.Function]*fnInfo{}
+	fnInfoFast  sync.Map // lock-free read path
 )
 
 func infoOf(fn *ssa.Function) *fnInfo {
+	if fi, ok := fnInfoFast.Load(fn); ok {
+		return fi.(*fnInfo)
+	}
 	fnInfoMu.Lock()
 	defer fnInfoMu.Unlock()
 	if fi, ok := fnInfoCache[fn]; ok {
@@ -65,9 +73,19 @@ func infoOf(fn *ssa.Function) *fnInfo {
 			}
 		}
 	}
+	fi.name = fn.String()
+	fi.model = fi.name
+	if o := fn.Origin(); o != nil {
+		fi.model = o.String()
+	}
+	fi.sparse = false // pooled slices are cheaper than maps even for huge functions
 	fnInfoCache[fn] = fi
+	fnInfoFast.Store(fn, fi)
 	return fi
 }
+
+// StepProfile, when non-nil, counts executed instructions per function (single worker only).
+var StepProfile map[string]int
 
 type deferred struct {
 	fn   Value
@@ -79,6 +97,7 @@ type frame struct {
 	fn        *ssa.Function
 	info      *fnInfo
 	env       []Value
+	envMap    map[int]Value // init frames are huge and sparsely used
 	block     *ssa.BasicBlock
 	prev      *ssa.BasicBlock
 	defers    []deferred
@@ -122,6 +141,7 @@ type Ctx struct {
 	choices    map[string]int // named concrete choices
 	reached    map[string]bool
 	funcs      map[string]bool
+	wdistinct  map[string]bool
 	log        []string
 	curFrame   *frame
 	onceDone   map[*Cell]bool
@@ -209,14 +229,29 @@ func (c *Ctx) mkInt(v *big.Int, w int, signed bool) *Term {
 	}
 	return IntConst(r)
 }
-func (c *Ctx) mkInt64(v int64, w int, signed bool) *Term { return c.mkInt(big.NewInt(v), w, signed) }
-func (c *Ctx) goInt(v int64) *Term                       { return c.mkInt64(v, 64, true) }
-func (c *Ctx) byteT(b byte) *Term                        { return c.mkInt64(int64(b), 8, false) }
+func (c *Ctx) mkInt64(v int64, w int, signed bool) *Term {
+	if !c.IntMode {
+		return BVConst64(v, w)
+	}
+	return c.mkInt(big.NewInt(v), w, signed)
+}
+func (c *Ctx) goInt(v int64) *Term { return c.mkInt64(v, 64, true) }
+func (c *Ctx) byteT(b byte) *Term  { return c.mkInt64(int64(b), 8, false) }
 
 // constInt returns the concrete signed value of an integer term if constant.
 func (c *Ctx) constInt(t *Term, signed bool) (int64, bool) {
 	if !t.IsConst() {
 		return 0, false
+	}
+	if t.S.K == KBV && t.S.W <= 64 {
+		u, s := t.u64()
+		if signed {
+			return s, true
+		}
+		if t.S.W == 64 && u > 1<<63-1 {
+			return 0, false
+		}
+		return int64(u), true
 	}
 	var v *big.Int
 	if t.S.K == KBV && signed {
@@ -383,7 +418,25 @@ func (c *Ctx) zero(t types.Type) Value {
 // ---------------------------------------------------------------------------
 // Constants
 
+var constCache [2]sync.Map // per encoding: *ssa.Const -> Value (immutable scalars and strings only)
+
 func (c *Ctx) constValue(k *ssa.Const) Value {
+	mode := 0
+	if c.IntMode {
+		mode = 1
+	}
+	if v, ok := constCache[mode].Load(k); ok {
+		return v
+	}
+	v := c.constValue1(k)
+	switch v.(type) {
+	case *Term, *StrVal:
+		constCache[mode].Store(k, v)
+	}
+	return v
+}
+
+func (c *Ctx) constValue1(k *ssa.Const) Value {
 	t := k.Type()
 	if k.Value == nil {
 		return c.zero(t)
@@ -638,6 +691,8 @@ func (c *Ctx) globalPtr(g *ssa.Global) Ptr {
 // ---------------------------------------------------------------------------
 // Frames
 
+var funcValCache sync.Map // immutable FuncVal per plain function / builtin
+
 func (c *Ctx) get(fr *frame, v ssa.Value) Value {
 	switch v := v.(type) {
 	case *ssa.Const:
@@ -645,20 +700,44 @@ func (c *Ctx) get(fr *frame, v ssa.Value) Value {
 	case *ssa.Global:
 		return c.globalPtr(v)
 	case *ssa.Function:
-		return &FuncVal{Fn: v}
+		if f, ok := funcValCache.Load(v); ok {
+			return f
+		}
+		f := &FuncVal{Fn: v}
+		funcValCache.Store(v, f)
+		return f
 	case *ssa.Builtin:
-		return &FuncVal{Bi: v}
+		if f, ok := funcValCache.Load(v); ok {
+			return f
+		}
+		f := &FuncVal{Bi: v}
+		funcValCache.Store(v, f)
+		return f
 	}
 	i, ok := fr.info.idx[v]
 	if !ok {
 		c.unsupported("unknown ssa value %T %s", v, v.Name())
 	}
+	if fr.envMap != nil && !fr.isInit {
+		r := fr.envMap[i]
+		if r == nil {
+			panic(fmt.Sprintf("engine: unset register %s in %s", v.Name(), fr.fn))
+		}
+		return r
+	}
+	if fr.isInit {
+		r := fr.envMap[i]
+		if r == nil {
+			c.initNeed(fr, v)
+			r = fr.envMap[i]
+		}
+		if r == nil {
+			panic(fmt.Sprintf("engine: unset init register %s in %s", v.Name(), fr.fn))
+		}
+		return r
+	}
 	r := fr.env[i]
 	if r == nil {
-		if fr.isInit {
-			c.initNeed(fr, v)
-			r = fr.env[i]
-		}
 		if r == nil {
 			panic(fmt.Sprintf("engine: unset register %s in %s", v.Name(), fr.fn))
 		}
@@ -667,6 +746,10 @@ func (c *Ctx) get(fr *frame, v ssa.Value) Value {
 }
 
 func (c *Ctx) set(fr *frame, v ssa.Value, x Value) {
+	if fr.envMap != nil {
+		fr.envMap[fr.info.idx[v]] = x
+		return
+	}
 	fr.env[fr.info.idx[v]] = x
 }
 
@@ -683,14 +766,31 @@ func (c *Ctx) CallFn(fn *ssa.Function, args []Value, env []Value) Value {
 		c.abort("budget", "call depth exceeded")
 	}
 	defer func() { c.depth-- }()
-	c.funcs[fn.String()] = true
 	info := infoOf(fn)
-	fr := &frame{fn: fn, info: info, env: make([]Value, info.n), caller: c.curFrame}
+	c.funcs[info.name] = true
+	fr := &frame{fn: fn, info: info, caller: c.curFrame}
+	if info.sparse {
+		fr.envMap = make(map[int]Value, 32)
+	} else {
+		// register files are recycled per function: allocation (and the GC work it causes) dominated the run time
+		if p, ok := info.pool.Get().(*[]Value); ok {
+			fr.env = *p
+		} else {
+			fr.env = make([]Value, info.n)
+		}
+		defer func() {
+			env := fr.env
+			for i := range env {
+				env[i] = nil
+			}
+			info.pool.Put(&env)
+		}()
+	}
 	for i, p := range fn.Params {
-		fr.env[info.idx[p]] = args[i]
+		c.set(fr, p, args[i])
 	}
 	for i, fv := range fn.FreeVars {
-		fr.env[info.idx[fv]] = env[i]
+		c.set(fr, fv, env[i])
 	}
 	fr.block = fn.Blocks[0]
 	saved := c.curFrame
@@ -736,6 +836,9 @@ func (c *Ctx) runFrame(fr *frame) {
 			c.steps++
 			if c.steps > c.Ex.MaxSteps {
 				c.abort("budget", "step budget exceeded (%d)", c.Ex.MaxSteps)
+			}
+			if StepProfile != nil {
+				StepProfile[fr.info.name]++
 			}
 			switch c.visit(fr, in) {
 			case kReturn:
@@ -1022,7 +1125,24 @@ func (c *Ctx) prepareCall(fr *frame, call *ssa.CallCommon) (Value, []Value) {
 	return fn, args
 }
 
+type methodKey struct {
+	t types.Type
+	m *types.Func
+}
+
+var methodCache sync.Map
+
 func (c *Ctx) lookupMethod(t types.Type, m *types.Func) *ssa.Function {
+	k := methodKey{t, m}
+	if f, ok := methodCache.Load(k); ok {
+		return f.(*ssa.Function)
+	}
+	f := c.lookupMethod1(t, m)
+	methodCache.Store(k, f)
+	return f
+}
+
+func (c *Ctx) lookupMethod1(t types.Type, m *types.Func) *ssa.Function {
 	if _, ok := t.Underlying().(*types.Interface); ok {
 		c.unsupported("method lookup on interface-typed dynamic type %s", t)
 	}
@@ -1050,11 +1170,24 @@ func (c *Ctx) callValue(fn Value, args []Value, call *ssa.CallCommon) Value {
 // ---------------------------------------------------------------------------
 // Type assertions
 
+type implKey struct {
+	t  types.Type
+	it *types.Interface
+}
+
+var implCache sync.Map // go/types method lookup takes a per-type mutex: cache the answers
+
 func (c *Ctx) implements(t types.Type, it *types.Interface) bool {
 	if t == runtimeErrorType {
 		return it.NumMethods() == 0 || (it.NumMethods() == 1 && it.Method(0).Name() == "Error")
 	}
-	return types.Implements(t, it)
+	k := implKey{t, it}
+	if v, ok := implCache.Load(k); ok {
+		return v.(bool)
+	}
+	r := types.Implements(t, it)
+	implCache.Store(k, r)
+	return r
 }
 
 func (c *Ctx) typeAssert(in *ssa.TypeAssert, x Iface) Value {
@@ -1212,6 +1345,9 @@ func (c *Ctx) index(fr *frame, in *ssa.Index) Value {
 	i := c.toInt64Term(c.get(fr, in.Index).(*Term), in.Index.Type())
 	switch x := x.(type) {
 	case *StrVal:
+		if v, ok := c.constInt(i, true); ok && v >= 0 && v < int64(len(x.B)) {
+			return x.B[v]
+		}
 		elems := make([]Value, len(x.B))
 		for k, b := range x.B {
 			elems[k] = b
@@ -1432,6 +1568,9 @@ func (c *Ctx) lookup(fr *frame, in *ssa.Lookup) Value {
 	switch x := x.(type) {
 	case *StrVal:
 		i := c.toInt64Term(c.get(fr, in.Index).(*Term), in.Index.Type())
+		if v, ok := c.constInt(i, true); ok && v >= 0 && v < int64(len(x.B)) {
+			return x.B[v]
+		}
 		elems := make([]Value, len(x.B))
 		for k, b := range x.B {
 			elems[k] = b
